@@ -154,7 +154,7 @@ def tlc_chunk_sequences(mc_tla, cfg, num, depth, seed, workdir):
 
 # ------------------------------------------------------------------------------------- concurrent
 ADEF = {"k": "", "t": 0, "e": 0, "f": 0, "g": 0, "n": 0, "ids": [], "pages": [], "bytes": [], "segs": [], "data": [], "live": [], "guards": True,
-        "rot": False, "status": "", "P": 0, "cap": 0, "closer_blocked": False, "judge_close": True}
+        "rot": False, "fail": False, "status": "", "P": 0, "cap": 0, "closer_blocked": False, "judge_close": True}
 
 
 def app_lines(events):
@@ -181,7 +181,7 @@ def app_lines(events):
         elif k == "check":
             out.append(dict(ADEF, k="check", t=t, f=e["f"], g=e["g"], rot=e["rot"]))
         elif k == "writev":
-            out.append(dict(ADEF, k="writev", t=t, f=e["f"], g=e["g"], segs=triples(e.get("segs", []))))
+            out.append(dict(ADEF, k="writev", t=t, f=e["f"], g=e["g"], segs=triples(e.get("segs", [])), fail=bool(e.get("fail", False))))
         elif k in ("ccall", "cret"):
             out.append(dict(ADEF, k=k, t=t))
         elif k == "file":
